@@ -2,6 +2,7 @@ package main
 
 import (
 	"encoding/json"
+	"go/types"
 	"flag"
 	"fmt"
 	"os"
@@ -244,6 +245,12 @@ func cmdCheck(args []string) int {
 			if R.Reach[h][l] == 0 {
 				R.inconclusive(fmt.Sprintf("vacuity: %s never reaches %q", h, l))
 			}
+		}
+	}
+
+	if id == "C19" {
+		for _, m := range lintFluent(P, hs) {
+			R.inconclusive(m)
 		}
 	}
 
@@ -670,4 +677,67 @@ func cmdReplay(args []string) int {
 		}
 	}
 	return rc
+}
+
+// lintFluent: every method of the List/Object interfaces that returns the interface itself and is
+// not a known deriving operation must be invoked by the C19 harnesses (so that a fluent method
+// added to the interface is noticed instead of silently ignored).
+func lintFluent(P *Program, hs []string) []string {
+	deriving := map[string]bool{"GetList": true, "GetObject": true, "Clone": true, "Concat": true, "SubList": true, "Merge": true, "Pluck": true,
+		"Keys": true, "Values": true, "MapAsync": true}
+	var out []string
+	called := map[string]bool{}
+	seen := map[*ssa.Function]bool{}
+	var walk func(f *ssa.Function)
+	walk = func(f *ssa.Function) {
+		if f == nil || seen[f] {
+			return
+		}
+		seen[f] = true
+		for _, b := range f.Blocks {
+			for _, in := range b.Instrs {
+				if c, ok := in.(ssa.CallInstruction); ok {
+					cc := c.Common()
+					if cc.Method != nil {
+						if n, ok := cc.Value.Type().(*types.Named); ok {
+							called[n.Obj().Name()+"."+cc.Method.Name()] = true
+						}
+					} else if callee := cc.StaticCallee(); callee != nil && callee.Pkg == P.pkg && strings.HasPrefix(callee.Name(), "h") {
+						walk(callee)
+					}
+				}
+			}
+		}
+		for _, af := range f.AnonFuncs {
+			walk(af)
+		}
+	}
+	for _, h := range hs {
+		walk(P.pkg.Func(h))
+	}
+	for _, iname := range []string{"List", "Object"} {
+		obj := P.pkg.Pkg.Scope().Lookup(iname)
+		if obj == nil {
+			continue
+		}
+		it, ok := obj.Type().Underlying().(*types.Interface)
+		if !ok {
+			continue
+		}
+		for i := 0; i < it.NumMethods(); i++ {
+			m := it.Method(i)
+			sig := m.Type().(*types.Signature)
+			if sig.Results().Len() != 1 || !types.Identical(sig.Results().At(0).Type(), obj.Type()) {
+				continue
+			}
+			name := m.Name()
+			if deriving[name] || strings.HasPrefix(name, "Map") || strings.HasPrefix(name, "Filter") {
+				continue
+			}
+			if !called[iname+"."+name] {
+				out = append(out, fmt.Sprintf("interface %s has a method %s returning %s that the C19 harness does not exercise (new fluent method?)", iname, name, iname))
+			}
+		}
+	}
+	return out
 }
